@@ -231,7 +231,7 @@ class _ReadSourceGenerator:
                     # so such fields can't share a block (and its fixed padding) with their predecessors
                     yield from flush()
 
-                if current_block and field.offset is not None and field.offset < current_offset:
+                if current_block and field.offset is not None and current_offset is not None and field.offset < current_offset:
                     # An explicit offset that goes backwards can't be expressed as padding within the block
                     yield from flush()
 
@@ -242,7 +242,10 @@ class _ReadSourceGenerator:
 
                 current_block.append(field)
 
-            if current_offset is not None and size is not None and (not field.bits or bits_rollover):
+            if size is None:
+                # Everything after a dynamically sized field is at an unknown offset, until a field with an explicit one
+                current_offset = None
+            elif current_offset is not None and (not field.bits or bits_rollover):
                 current_offset += size
                 bits_rollover = False
 
